@@ -485,6 +485,207 @@ Definition lgmres (A P : vec -> vec) (prm : kprm) (f x0 : vec) (st : lg_ws) : ko
     (KOk r, w)
   end.
 
+(* =====================================================================
+   Householder QR (detail/qr.hpp:118-170, 257-300, 337-470), square m x m case used by
+   BiCGStab(L).  The matrix is an index map relative to its origin.                          *)
+Definition sqr (x : S) : S := x * x.
+(* gen_reflector(order, alpha, x): (tau, new alpha, new x) *)
+Definition gen_reflector (order : nat) (alpha : S) (x : nat -> S) : S * S * (nat -> S) :=
+  if Nat.leb order 1 then (s0, alpha, x) else
+  let n := (order - 1)%nat in
+  let xnorm2 := fold_left (fun acc i => acc + sqr (sabs (x i))) (seq 0 n) (sofQ (0 # 1)%Q) in
+  if is_zero xnorm2 then (s0, alpha, x) else
+  let beta0 := - sabs (ssqrt (sqr (sabs alpha) + xnorm2)) in
+  let beta := if sltb alpha (sofQ (0 # 1)%Q) then - beta0 else beta0 in
+  let tau := s1 - sinv beta * alpha in
+  let a' := sinv (alpha - beta * s1) in
+  (tau, beta * s1, fun i => if Nat.ltb i n then a' * x i else x i).
+
+(* apply_reflector(m, n, v, tau, C) on the block of C with origin (ro, co) *)
+Definition app_refl (m n : nat) (v : nat -> S) (tau : S) (ro co : nat) (C : nat -> nat -> S) : nat -> nat -> S :=
+  if is_zero tau then C else
+  fold_left (fun C i =>
+     let s := fold_left (fun s j => s + sadj (C (ro + j)%nat (co + i)%nat) * v j) (seq 1 (m - 1)) (sadj (C ro (co + i)%nat)) in
+     let s := tau * sadj s in
+     let C1 := updm C ro (co + i)%nat (C ro (co + i)%nat - s) in
+     fold_left (fun C' j => updm C' (ro + j)%nat (co + i)%nat (C' (ro + j)%nat (co + i)%nat - v j * s)) (seq 1 (m - 1)) C1)
+    (seq 0 n) C.
+(* the same on a vector (n = 1) with origin o *)
+Definition app_refl_vec (m : nat) (v : nat -> S) (tau : S) (o : nat) (f : nat -> S) : nat -> S :=
+  if is_zero tau then f else
+  let s := fold_left (fun s j => s + sadj (f (o + j)%nat) * v j) (seq 1 (m - 1)) (sadj (f o)) in
+  let s := tau * sadj s in
+  let f1 := upd f o (f o - s) in
+  fold_left (fun f' j => upd f' (o + j)%nat (f' (o + j)%nat - v j * s)) (seq 1 (m - 1)) f1.
+
+(* QR::compute(m, m, A): returns the factored array and tau *)
+Definition qr_compute (m : nat) (A : nat -> nat -> S) : (nat -> nat -> S) * (nat -> S) :=
+  fold_left (fun (At : (nat -> nat -> S) * (nat -> S)) i =>
+     let '(A, tau) := At in
+     let '(ti, aii, col) := gen_reflector (m - i) (A i i) (fun k => A (i + 1 + k)%nat i) in
+     let A1 := fold_left (fun A' k => updm A' (i + 1 + k)%nat i (col k)) (seq 0 (m - i - 1)) (updm A i i aii) in
+     let A2 := if Nat.ltb (i + 1) m
+               then app_refl (m - i) (m - i - 1) (fun j => A1 (i + j)%nat i) (sadj ti) i (i + 1)%nat A1
+               else A1 in
+     (A2, upd tau i ti)) (seq 0 m) (A, fun _ => s0).
+
+(* QR::solve(m, m, A, b, x, computed) for rows >= cols; (A, tau) are the factors when computed *)
+Definition qr_solve (m : nat) (At : (nat -> nat -> S) * (nat -> S)) (b : nat -> S) (computed : bool)
+  : ((nat -> nat -> S) * (nat -> S)) * (nat -> S) :=
+  let '(A, tau) := if computed then At else qr_compute m (fst At) in
+  let f := fold_left (fun f i => app_refl_vec (m - i) (fun j => A (i + j)%nat i) (sadj (tau i)) i f) (seq 0 m) b in
+  let x := fold_left (fun x i =>
+              let rii := A i i in
+              if is_zero rii then x else
+              let xi := sinv rii * x i in
+              fold_left (fun x' j => upd x' j (x' j - A j i * xi)) (seq 0 i) (upd x i xi))
+            (rev (seq 0 m)) f in
+  ((A, tau), x).
+
+(* =====================================================================
+   BiCGStab(L) (bicgstabl.hpp:213-424).  MZa, MZb, Y0, YL and the QR scratch are written
+   completely in every polynomial part before they are read and are computed locally here;
+   the vectors Rt, X, B, T, R[0..L], U[0..L] are the workspace.                              *)
+Record bl_ws := mkBlWs { l_Rt : vec; l_X : vec; l_B : vec; l_T : vec; l_R : nat -> vec; l_U : nat -> vec }.
+Record bl_st := mkBlSt { t_x : vec; t_ws : bl_ws; t_alpha : S; t_rho0 : S; t_omega : S;
+                         t_zeta : S; t_rnc : S; t_rnt : S; t_it : nat }.
+Inductive bl_bicg := BlExc | BlDone (st : bl_st) | BlCont (st : bl_st).
+
+(* for(j = 0; j < L; ++j) { ... }  over js = [0; ...; L-1] *)
+Fixpoint bl_bicg_part (A P : vec -> vec) (left : bool) (eps : S) (js : list nat) (st : bl_st) : bl_bicg :=
+  match js with
+  | [] => BlCont st
+  | j :: tl =>
+    let w := t_ws st in
+    let rho1 := ip (l_R w j) (l_Rt w) in
+    if is_zero rho1 then BlExc else
+    let beta := t_alpha st * (rho1 / t_rho0 st) in
+    let U1 := fold_left (fun U i => upd U i (k_axpby s1 (l_R w i) (- beta) (U i))) (seq 0 (SS j)) (l_U w) in
+    let '(uj1, T1) := pspmv left A P (U1 j) in
+    let U2 := upd U1 (SS j) uj1 in
+    let sigma := ip uj1 (l_Rt w) in
+    if is_zero sigma then BlExc else
+    let alpha := rho1 / sigma in
+    let X := k_axpby alpha (U2 0) s1 (l_X w) in
+    let R1 := fold_left (fun R i => upd R i (k_axpby (- alpha) (U2 (SS i)) s1 (R i))) (seq 0 (SS j)) (l_R w) in
+    let '(rj1, T2) := pspmv left A P (R1 j) in
+    let R2 := upd R1 (SS j) rj1 in
+    let zeta := norm_a (R2 0) in
+    let st' := mkBlSt (t_x st) (mkBlWs (l_Rt w) X (l_B w) T2 R2 U2) alpha rho1 (t_omega st)
+                      zeta (smax zeta (t_rnc st)) (smax zeta (t_rnt st)) (t_it st) in
+    if sltb zeta eps
+    then BlDone (mkBlSt (t_x st) (t_ws st') alpha rho1 (t_omega st) zeta (t_rnc st') (t_rnt st') (t_it st + SS j)%nat)
+    else bl_bicg_part A P left eps tl st'
+  end.
+
+Definition c07 : Q := (3152519739159347 # 4503599627370496)%Q.   (* the double 0.7 *)
+
+(* the polynomial part: returns Y0[0..L] (None: "zero omega") *)
+Definition bl_poly (L : nat) (convex : bool) (R : nat -> vec) : option ((nat -> S) * S) :=
+  (* MZa(i,j) = <R_i, R_j>, j <= i; symmetrised *)
+  let MZ := fun i j => if Nat.leb j i then ip (R i) (R j) else sadj (ip (R j) (R i)) in
+  let MZl := fun i j => if Nat.ltb i j then MZ i j else if Nat.eqb i j then MZ i j else sadj (MZ i j) in
+  let MZb := fun i j => if Nat.ltb j i then sadj (ip (R i) (R j)) else if Nat.eqb i j then ip (R i) (R i) else sadj (ip (R j) (R i)) in
+  let Asub := fun i j => MZb (1 + i)%nat (1 + j)%nat in
+  let Y0 :=
+    if convex || Nat.eqb L 1 then
+      let '(_, y) := qr_solve L (Asub, fun _ => s0) (fun k => MZb 0 (1 + k)%nat) false in
+      fun i => if Nat.eqb i 0 then - s1 else y (i - 1)%nat
+    else
+      let '(At, y0) := qr_solve (L - 1) (Asub, fun _ => s0) (fun k => MZb 0 (1 + k)%nat) false in
+      let '(_, yl) := qr_solve (L - 1) At (fun k => MZb L (1 + k)%nat) true in
+      let Y0 := fun i => if Nat.eqb i 0 then - s1 else if Nat.eqb i L then s0 else y0 (i - 1)%nat in
+      let YL := fun i => if Nat.eqb i 0 then s0 else if Nat.eqb i L then - s1 else yl (i - 1)%nat in
+      let '(dot0, dot1, dotA) :=
+        fold_left (fun (d : S * S * S) i =>
+          let '(d0, d1, dA) := d in
+          let '(z0, zL) := fold_left (fun (z : S * S) j => (fst z + MZb i j * Y0 j, snd z + MZb i j * YL j)) (seq 0 (SS L)) (s0, s0) in
+          (d0 + Y0 i * z0, d1 + YL i * zL, dA + YL i * z0)) (seq 0 (SS L)) (s0, s0, s0) in
+      let kappa0 := ssqrt (sabs dot0) in
+      let kappa1 := ssqrt (sabs dot1) in
+      let kappaA := dotA in
+      if negb (is_zero kappa0) && negb (is_zero kappa1) then
+        let ghat := if sltb kappaA (sofQ c07 * kappa0 * kappa1)
+                    then (if sltb kappaA (sofQ (0 # 1)%Q) then (- sofQ c07) * kappa0 / kappa1 else sofQ c07 * kappa0 / kappa1)
+                    else kappaA / (kappa1 * kappa1) in
+        fun i => Y0 i - ghat * YL i
+      else Y0 in
+  (* omega = Y0[L]; for(h = L; h > 0 && is_zero(omega); --h) omega = Y0[h]; *)
+  let omega := fold_left (fun om h => if is_zero om then Y0 h else om) (rev (seq 1 L)) (Y0 L) in
+  if is_zero omega then None else Some (Y0, omega).
+
+Definition bl_step (A P : vec -> vec) (prm : kprm) (eps zeta0 : S) (st : bl_st) : bl_bicg :=
+  let L := p_L prm in
+  let left := p_left prm in
+  let st1 := mkBlSt (t_x st) (t_ws st) (t_alpha st) (- t_omega st * t_rho0 st) (t_omega st)
+                    (t_zeta st) (t_rnc st) (t_rnt st) (t_it st) in
+  match bl_bicg_part A P left eps (seq 0 L) st1 with
+  | BlExc => BlExc
+  | BlDone s => BlDone s
+  | BlCont s =>
+    let w := t_ws s in
+    match bl_poly L (p_convex prm) (l_R w) with
+    | None => BlExc
+    | Some (Y0, omega) =>
+      let X := k_lin_comb (map (fun i => (Y0 (SS i), l_R w i)) (seq 0 L)) s1 (l_X w) in
+      let Yn := fun i => (- s1) * Y0 i in
+      let U0 := k_lin_comb (map (fun i => (Yn (SS i), l_U w (SS i))) (seq 0 L)) s1 (l_U w 0) in
+      let R0 := k_lin_comb (map (fun i => (Yn (SS i), l_R w (SS i))) (seq 0 L)) s1 (l_R w 0) in
+      let zeta := norm_a R0 in
+      let w1 := mkBlWs (l_Rt w) X (l_B w) (l_T w) (upd (l_R w) 0 R0) (upd (l_U w) 0 U0) in
+      let s1' := mkBlSt (t_x s) w1 (t_alpha s) (t_rho0 s) omega zeta (t_rnc s) (t_rnt s) (t_it s + L)%nat in
+      if sltb (sofQ (0 # 1)%Q) (p_delta prm) then
+        let rnc := smax zeta (t_rnc s) in
+        let rnt := smax zeta (t_rnt s) in
+        let update_x := sltb zeta (p_delta prm * zeta0) && sleb zeta0 rnc in
+        if (sltb zeta (p_delta prm * rnt) && sleb zeta rnt) || update_x then
+          let '(r0, T) := pspmv left A P X in
+          let R0' := k_axpby s1 (l_B w) (- s1) r0 in
+          if update_x then
+            let x' := if left then k_axpby s1 X s1 (t_x s) else k_axpby s1 T s1 (t_x s) in
+            BlCont (mkBlSt x' (mkBlWs (l_Rt w) (k_clear X) R0' T (upd (l_R w1) 0 R0') (l_U w1))
+                           (t_alpha s) (t_rho0 s) omega zeta zeta zeta (t_it s + L)%nat)
+          else
+            BlCont (mkBlSt (t_x s) (mkBlWs (l_Rt w) X (l_B w) T (upd (l_R w1) 0 R0') (l_U w1))
+                           (t_alpha s) (t_rho0 s) omega zeta rnc zeta (t_it s + L)%nat)
+        else BlCont (mkBlSt (t_x s) w1 (t_alpha s) (t_rho0 s) omega zeta rnc rnt (t_it s + L)%nat)
+      else BlCont s1'
+    end
+  end.
+
+(* for(; iter < maxiter && zeta >= eps; iter += L): at most maxiter passes (L >= 1) *)
+Fixpoint bl_loop (A P : vec -> vec) (prm : kprm) (eps zeta0 : S) (fuel : nat) (st : bl_st) : option (bl_st * bool) :=
+  if Nat.ltb (t_it st) (p_maxiter prm) && negb (sltb (t_zeta st) eps) then
+    match fuel with
+    | O => Some (st, true)
+    | SS k => match bl_step A P prm eps zeta0 st with
+              | BlExc => None
+              | BlDone s => Some (s, false)
+              | BlCont s => bl_loop A P prm eps zeta0 k s
+              end
+    end
+  else Some (st, false).
+
+Definition bicgstabl (A P : vec -> vec) (prm : kprm) (f x0 : vec) (junk : bl_ws) : kout * bl_ws :=
+  match k_prologue norm_a prm f with
+  | Trivial nr => (k_trivial nr x0, junk)
+  | Go nr =>
+    let left := p_left prm in
+    let '(B, T) := if left then let t := k_residual f (A x0) in (P t, t) else (k_residual f (A x0), l_T junk) in
+    let zeta0 := norm_a B in
+    let eps := smax (p_tol prm * nr) (p_abstol prm) in
+    let w0 := mkBlWs B (k_clear (l_X junk)) B T (upd (l_R junk) 0 B) (upd (l_U junk) 0 (k_clear (l_U junk 0))) in
+    let st0 := mkBlSt x0 w0 s0 s1 s1 zeta0 zeta0 zeta0 0 in
+    match bl_loop A P prm eps zeta0 (p_maxiter prm) st0 with
+    | None => (KExc, junk)
+    | Some (st, oof) =>
+      let w := t_ws st in
+      let '(x, T') := if left then (k_axpby s1 (l_X w) s1 (t_x st), l_T w)
+                      else let t := P (l_X w) in (k_axpby s1 t s1 (t_x st), t) in
+      (KOk (mkRes (t_it st) (t_zeta st / nr) x oof), mkBlWs (l_Rt w) (l_X w) (l_B w) T' (l_R w) (l_U w))
+    end
+  end.
+
 (* ---------- specification-level observables (used by theorems and oracles) ---------- *)
 (* relative (preconditioned) residual of a vector x, with the solver's own norm *)
 Definition true_res (nrm : vec -> S) (A P : vec -> vec) (left : bool) (f x : vec) : S :=
